@@ -1,12 +1,18 @@
 ------------------------------- MODULE Gen_Req -------------------------------
 (***************************************************************************)
 (* Campaign E for whole requests: TLC enumerates logical requests, defect *)
-(* subsets, provider scripts and mutations, renders them on the wire with *)
-(* the reference signer (Wire.tla) and prints one case per leaf of the    *)
-(* index tree.  While doing so it checks the consistency of the abstract  *)
-(* pipeline model with the byte-level reading: the first rule Request!Q   *)
-(* reports for a request carrying the defect set D is the minimum of D    *)
-(* (ConsistentFirst).                                                      *)
+(* subsets, provider scripts, spellings and mutations, renders them on    *)
+(* the wire with the reference signer (Wire.tla) and prints one case per  *)
+(* leaf of the index tree.  A case is                                      *)
+(*    a wire request (signature = placeholder {SIG})                       *)
+(*  + the symbolic term for the signature (which bytes under which key)    *)
+(*  + server configuration + provider script.                              *)
+(* A bundle may carry post-signing mutations of the wire (C01 mutations,  *)
+(* C02 respellings, C11 header edits, C19 duplicates): the term is always *)
+(* taken from the request the honest signer saw.  No expectation is       *)
+(* printed; what must happen is decided by Trace_Req from the wire bytes. *)
+(* While enumerating, TLC checks the abstract/concrete consistency        *)
+(* (ConsistentFirst) and the spelling laws (SpellingKeepsCanonicalForm).  *)
 (***************************************************************************)
 EXTENDS Wire, Json
 
@@ -25,8 +31,7 @@ BaseScript == [readyIn |-> 0, ready |-> "ok", pendIn |-> 0, answer |-> "ok", err
                principal |-> 7, secret |-> Secret1]
 
 \* ---------------------------------------------------------------- logical request with defect knobs
-\* extra knobs on top of Wire!DefaultL
-L0 == DefaultL @@ [omit |-> {}, extraParam |-> <<>>, both |-> FALSE, none |-> FALSE]
+L0 == DefaultL @@ [omit |-> {}, extraParam |-> <<>>, both |-> FALSE, none |-> FALSE, version |-> "HTTP/1.1"]
 
 AuthValueX(L) ==
     LET ps == (IF "cred" \in L.omit THEN <<>> ELSE << B("Credential=") \o Credential(L) >>)
@@ -46,7 +51,7 @@ AuthQueryX(L) ==
 MkX(L) ==
     LET q0 == L.query IN
     IF L.carrier = "hdr"
-    THEN [method |-> L.method,
+    THEN [method |-> L.method, version |-> L.version,
           uri |-> L.path \o (LET q == IF L.both THEN (IF q0 = <<>> THEN <<>> ELSE q0 \o <<AMP>>) \o B("X-Amz-Algorithm=AWS4-HMAC-SHA256")
                                       ELSE q0
                              IN IF q = <<>> THEN <<>> ELSE <<63>> \o q),
@@ -55,20 +60,42 @@ MkX(L) ==
                        \o (IF L.hasToken THEN << <<B("X-Amz-Security-Token"), L.token>> >> ELSE <<>>)
                        \o (IF L.none THEN <<>> ELSE << <<B("Authorization"), AuthValueX(L)>> >>),
           body |-> L.body]
-    ELSE [method |-> L.method,
+    ELSE [method |-> L.method, version |-> L.version,
           uri |-> L.path \o (LET q == IF L.none THEN q0
                                       ELSE (IF q0 = <<>> THEN <<>> ELSE q0 \o <<AMP>>) \o AuthQueryX(L)
                              IN IF q = <<>> THEN <<>> ELSE <<63>> \o q),
           headers |-> L.hdrs \o (IF L.both THEN << <<B("Authorization"), AuthValueX(L)>> >> ELSE <<>>),
           body |-> L.body]
 
+\* ---------------------------------------------------------------- post-signing wire mutations
+SetAt(s, i, c) == [s EXCEPT ![i] = c]
+DropAt(s, i) == SubSeq(s, 1, i - 1) \o SubSeq(s, i + 1, Len(s))
+PutAt(s, i, x) == SubSeq(s, 1, i - 1) \o <<x>> \o SubSeq(s, i, Len(s))
+OtherByte(c) == IF c = 97 THEN 98 ELSE 97
+
+Mut1(w, m) ==
+    CASE m.k = "uribyte"  -> [w EXCEPT !.uri = SetAt(@, m.pos, OtherByte(@[m.pos]))]
+      [] m.k = "uri"      -> [w EXCEPT !.uri = m.v]
+      [] m.k = "hdrbyte"  -> [w EXCEPT !.headers[m.h][2] = SetAt(@, m.pos, OtherByte(@[m.pos]))]
+      [] m.k = "hdrset"   -> [w EXCEPT !.headers[m.h][2] = m.v]
+      [] m.k = "hdrname"  -> [w EXCEPT !.headers[m.h][1] = m.v]
+      [] m.k = "hdrdel"   -> [w EXCEPT !.headers = DropAt(@, m.h)]
+      [] m.k = "hdrins"   -> [w EXCEPT !.headers = PutAt(@, m.at, <<m.name, m.v>>)]
+      [] m.k = "hdrswap"  -> [w EXCEPT !.headers = [@ EXCEPT ![m.i] = w.headers[m.j], ![m.j] = w.headers[m.i]]]
+      [] m.k = "hdrs"     -> [w EXCEPT !.headers = m.v]
+      [] m.k = "body"     -> [w EXCEPT !.body = m.v]
+      [] m.k = "method"   -> [w EXCEPT !.method = m.v]
+      [] m.k = "version"  -> [w EXCEPT !.version = m.v]
+RECURSIVE MutAll(_, _, _)
+MutAll(w, ms, k) == IF k > Len(ms) THEN w ELSE MutAll(Mut1(w, ms[k]), ms, k + 1)
+
 \* ---------------------------------------------------------------- defect injectors (one per rule)
 DefectList == <<1, 2, 3, 5, 6, 7, 8, 9, 10, 11, 12, 13, 14, 16>>
 
-\* a bundle is what a case is made of
 Bundle0(carrier) ==
     [L |-> IF carrier = "hdr" THEN L0 ELSE [L0 EXCEPT !.carrier = "qry", !.signed = <<B("host")>>],
-     cfg |-> BaseCfg, script |-> BaseScript, sigmut |-> "none"]
+     cfg |-> BaseCfg, script |-> BaseScript, sigmut |-> "none", post |-> <<>>, signSecret |-> Secret1,
+     over |-> [none |-> TRUE]]
 
 FormHdr == <<B("Content-Type"), B("application/x-www-form-urlencoded")>>
 
@@ -88,10 +115,10 @@ Inject(b, d, w) ==      \* w = witness number (1..3)
                    ELSE [b EXCEPT !.cfg.always = <<B("X-Required")>>]
       [] d = 10 -> [b EXCEPT !.L.ts = CASE w = 1 -> B("20151330T123600Z") [] w = 2 -> B("20150830T123600") [] OTHER -> B("yesterday")]
       [] d = 11 -> [b EXCEPT !.L.ts = IF w = 1 THEN B("20150830T122059Z") ELSE B("20150829T123600Z"),
-                             !.L.scope = IF w = 1 THEN @ ELSE <<B("20150829"), @[2], @[3], @[4]>>]
+                             !.L.scope = IF w = 1 THEN @ ELSE [@ EXCEPT ![1] = B("20150829")]]
       [] d = 12 -> [b EXCEPT !.L.ts = IF w = 1 THEN B("20150830T125101Z") ELSE B("20150831T123600Z"),
-                             !.L.scope = IF w = 1 THEN @ ELSE <<B("20150831"), @[2], @[3], @[4]>>]
-      [] d = 13 -> [b EXCEPT !.L.scope = IF w = 1 THEN <<@[1], @[2], @[3]>> ELSE <<@[1], @[2], @[3], @[4], B("extra")>>]
+                             !.L.scope = IF w = 1 THEN @ ELSE [@ EXCEPT ![1] = B("20150831")]]
+      [] d = 13 -> [b EXCEPT !.L.scope = IF w = 1 THEN <<@[1], @[2], @[3]>> ELSE @ \o <<B("extra")>>]
       [] d = 14 -> [b EXCEPT !.L.scope = CASE w = 1 -> [@ EXCEPT ![2] = B("us-west-2")]
                                            [] w = 2 -> [@ EXCEPT ![3] = B("other")]
                                            [] OTHER -> [@ EXCEPT ![1] = B("20150829")]]
@@ -101,17 +128,35 @@ RECURSIVE InjectAll(_, _, _, _)
 InjectAll(b, ds, k, w) == IF k > Len(ds) THEN b ELSE InjectAll(Inject(b, ds[k], w), ds, k + 1, w)
 
 \* ---------------------------------------------------------------- rendering a bundle as a case
+\* ("none" \in DOMAIN b.over): the post-mutations happen to the request AFTER it was signed (tampering,
+\* respelling).  Otherwise (C19) they are part of what the signer sends (duplicated inputs) and
+\* b.over records the signer's own choice of timestamp / credential / signed list.
+WireOf(b) == MutAll(MkX(b.L), b.post, 1)
+SignedWireOf(b) == IF ("none" \in DOMAIN b.over) THEN MkX(b.L) ELSE WireOf(b)
+
+SignerView(b, w0) ==
+    LET r == Q(EnvOfWire(w0), b.cfg) IN
+    IF ("none" \in DOMAIN b.over) \/ ~CanSign(r) THEN r
+    ELSE LET signed == IF "signed" \in DOMAIN b.over THEN b.over.signed ELSE r.signed
+             inst   == IF "ts" \in DOMAIN b.over THEN Parse(b.over.ts).inst ELSE r.inst
+             cred   == IF "cred" \in DOMAIN b.over THEN b.over.cred ELSE r.cred
+         IN [r EXCEPT !.signed = signed, !.inst = inst, !.cred = cred,
+                      !.creqPres = {CReqPreOf(EnvOfWire(w0), p, r.cquery, signed) : p \in r.cpaths}]
+
 CaseOfBundle(b, id) ==
-    LET w   == MkX(b.L)
-        r   == Q(EnvOfWire(w), b.cfg)
-        dir == IF CanSign(r) THEN Directive(r, Secret1) @@ [sigmut |-> b.sigmut] ELSE "none"
-    IN [op |-> "req", id |-> id, method |-> w.method, uri |-> w.uri, version |-> "HTTP/1.1",
-        headers |-> w.headers, body |-> w.body, cfg |-> b.cfg, script |-> b.script, sign |-> dir]
+    LET w0  == SignedWireOf(b)
+        r   == SignerView(b, w0)
+        dir == IF CanSign(r) THEN Directive(r, b.signSecret) @@ [sigmut |-> b.sigmut] ELSE "none"
+        w   == WireOf(b)
+    IN [op |-> "req", id |-> id, method |-> w.method, uri |-> w.uri, version |-> w.version,
+        headers |-> w.headers, body |-> w.body, cfg |-> b.cfg, script |-> b.script, sign |-> dir,
+        leak |-> Family \in {"leak_defects", "leak_scripts", "leak_sigmut"}]
 
 FirstRuleOf(b) == Q(EnvOfWire(MkX(b.L)), b.cfg).err.rule
 
-\* ---------------------------------------------------------------- families
-Methods == <<B("GET"), B("POST"), B("DELETE"), B("PROPFIND")>>
+\* ---------------------------------------------------------------- material
+Methods == <<B("GET"), B("POST"), B("DELETE"), B("PROPFIND"), B("M-SEARCH")>>
+Versions == <<"HTTP/1.1", "HTTP/0.9", "HTTP/1.0", "HTTP/2.0", "HTTP/3.0">>
 Paths   == <<B("/"), B("/a/b"), B("/a%20b/%7Ec/"), B("/a//b/./c/../d"), B("/%E2%82%AC/x*y"), B("/a/b/")>>
 Queries == << <<>>, B("a=1"), B("b=2&a=1&a=0"), B("a1=2&a=1&a-=3&A=4"), B("k=%20+%7e&k2=&k3"), B("x=%E2%82%AC&&y==z") >>
 HdrSets == << <<>>,
@@ -120,39 +165,379 @@ HdrSets == << <<>>,
               << <<B("Content-Type"), B("text/plain")>>, <<B("X-Empty"), <<>> >> >>,
               << <<B("Zeta"), <<233, 32, 32, 9, 120>> >>, <<B("alpha"), B("1")>> >> >>
 Bodies  == << <<>>, B("hello world"), <<0, 255, 128, 10, 13>> >>
+TokenV  == B("AQoDYXdzEPT//////////wEXAMPLE+tok/en==")
+
 SignAll(L) ==     \* a signer that signs every header it sends
     LET names == {LowerSeq(L.hdrs[i][1]) : i \in 1..Len(L.hdrs)}
                  \cup (IF L.carrier = "hdr" THEN {LowerSeq(L.dateHeader)} ELSE {})
                  \cup (IF L.hasToken /\ L.carrier = "hdr" THEN {B("x-amz-security-token")} ELSE {})
     IN SortLex(SetToSeq(names))
 
+CarrierOf(k) == IF k = 1 THEN "hdr" ELSE "qry"
+
+\* a request with something in every component
+RichL(carrier) ==
+    LET L1 == [Bundle0(carrier).L EXCEPT !.method = B("POST"), !.path = B("/a%20b/c"), !.query = B("b=2&a=%20x&a=0"),
+                                        !.hdrs = @ \o << <<B("X-Amz-Meta"), B("a  b")>>, <<B("My-Header1"), B("v1")>>,
+                                                        <<B("my-header1"), B("v2")>>, <<B("Unsigned"), B("u")>> >>,
+                                        !.body = B("hello"), !.hasToken = TRUE, !.token = TokenV]
+    IN [L1 EXCEPT !.signed = SelectSeq(SignAll(L1), LAMBDA n : n # B("unsigned"))]
+RichB(carrier) == [Bundle0(carrier) EXCEPT !.L = RichL(carrier)]
+RichW(carrier) == MkX(RichL(carrier))
+
+\* flattened byte positions of all header values of a wire: <<header index, position>>
+HdrPositions(w) == Cat([h \in 1..Len(w.headers) |-> [p \in 1..Len(w.headers[h][2]) |-> <<h, p>>]])
+HdrIndex(w, name) == CHOOSE h \in 1..Len(w.headers) : LowerSeq(w.headers[h][1]) = name
+                                                      /\ \A h2 \in 1..(h - 1) : LowerSeq(w.headers[h2][1]) # name
+
+\* respelling helpers (C02)
+FlipHexCase(s) == [i \in 1..Len(s) |->
+                     IF ((i > 1 /\ s[i-1] = PCT) \/ (i > 2 /\ s[i-2] = PCT)) /\ HexVal(s[i]) >= 10
+                     THEN (IF IsUpper(s[i]) THEN s[i] + 32 ELSE s[i] - 32) ELSE s[i]]
+EscapeUnreservedAlpha(s) ==     \* needlessly escape every unreserved letter 'a' and 'c' outside escapes
+    Cat([i \in 1..Len(s) |->
+           IF s[i] \in {97, 99} /\ ~((i > 1 /\ s[i-1] = PCT) \/ (i > 2 /\ s[i-2] = PCT))
+           THEN <<PCT, HexLo(s[i] \div 16), HexLo(s[i] % 16)>> ELSE <<s[i]>>])
+PctSpaceToPlus(q) ==
+    Cat([i \in 1..Len(q) |->
+           IF q[i] = PCT /\ i + 2 <= Len(q) /\ q[i+1] = 50 /\ q[i+2] = 48 THEN <<PLUS>>
+           ELSE IF (i > 1 /\ q[i-1] = PCT /\ q[i] = 50 /\ i + 1 <= Len(q) /\ q[i+1] = 48)
+                   \/ (i > 2 /\ q[i-2] = PCT /\ q[i-1] = 50 /\ q[i] = 48) THEN <<>>
+           ELSE <<q[i]>>])
+ReverseSeq(s) == [i \in 1..Len(s) |-> s[Len(s) + 1 - i]]
+UriPath(u) == Split2(u, 63)[1]
+UriQuery(u) == IF Len(Split2(u, 63)) = 2 THEN Split2(u, 63)[2] ELSE <<>>
+UriOf(p, q) == p \o (IF q = <<>> THEN <<>> ELSE <<63>> \o q)
+SpaceOut(v) == <<SP, SP>> \o Cat([i \in 1..Len(v) |-> IF v[i] = SP THEN <<SP, SP, SP>> ELSE <<v[i]>>]) \o <<SP>>
+\* stable reordering across different names: all headers named like the last one first
+GroupLastFirst(hs) ==
+    LET n == LowerSeq(hs[Len(hs)][1])
+    IN SelectSeq(hs, LAMBDA h : LowerSeq(h[1]) = n) \o SelectSeq(hs, LAMBDA h : LowerSeq(h[1]) # n)
+
+SpellRecipe(w, k) ==
+    CASE k = 1  -> << >>
+      [] k = 2  -> << [k |-> "uri", v |-> FlipHexCase(w.uri)] >>
+      [] k = 3  -> << [k |-> "uri", v |-> UriOf(EscapeUnreservedAlpha(UriPath(w.uri)), UriQuery(w.uri))] >>
+      [] k = 4  -> << [k |-> "uri", v |-> UriOf(UriPath(w.uri), PctSpaceToPlus(UriQuery(w.uri)))] >>
+      [] k = 5  -> << [k |-> "uri", v |-> UriOf(UriPath(w.uri), Join(ReverseSeq(SplitOn(UriQuery(w.uri), AMP)), <<AMP>>))] >>
+      [] k = 6  -> << [k |-> "uri", v |-> UriOf(UriPath(w.uri), <<AMP>> \o Join(SplitOn(UriQuery(w.uri), AMP), <<AMP, AMP>>) \o <<AMP>>)] >>
+      [] k = 7  -> << [k |-> "hdrs", v |-> [h \in 1..Len(w.headers) |-> <<UpperSeq(w.headers[h][1]), w.headers[h][2]>>]] >>
+      [] k = 8  -> << [k |-> "hdrs", v |-> [h \in 1..Len(w.headers) |->
+                                             IF LowerSeq(w.headers[h][1]) = bAuthorization THEN w.headers[h]
+                                             ELSE <<w.headers[h][1], SpaceOut(w.headers[h][2])>>]] >>
+      [] k = 9  -> << [k |-> "hdrs", v |-> GroupLastFirst(w.headers)] >>
+      [] k = 10 -> << [k |-> "uri", v |-> UriOf(UriPath(w.uri), EscapeUnreservedAlpha(UriQuery(w.uri)))] >>
+      [] k = 11 -> << [k |-> "version", v |-> "HTTP/2.0"] >>
+      [] k = 12 -> << [k |-> "uri", v |-> UriOf(EscapeUnreservedAlpha(FlipHexCase(UriPath(w.uri))),
+                                                 <<AMP>> \o Join(ReverseSeq(SplitOn(PctSpaceToPlus(UriQuery(w.uri)), AMP)), <<AMP, AMP>>))],
+                      [k |-> "hdrs", v |-> GroupLastFirst([h \in 1..Len(w.headers) |->
+                                             IF LowerSeq(w.headers[h][1]) = bAuthorization THEN <<UpperSeq(w.headers[h][1]), w.headers[h][2]>>
+                                             ELSE <<UpperSeq(w.headers[h][1]), SpaceOut(w.headers[h][2])>>])] >>
+NumSpell == 12
+
+\* C01: structural single-component mutations of the rich request
+StructMut(w, k) ==
+    LET hm  == HdrIndex(w, B("my-header1"))
+        hu  == HdrIndex(w, B("unsigned"))
+        hx  == HdrIndex(w, B("x-amz-meta"))
+        qs  == SplitOn(UriQuery(w.uri), AMP)
+    IN CASE k = 1  -> << [k |-> "hdrswap", i |-> hm, j |-> hm + 1] >>                      \* value order of a signed header
+         [] k = 2  -> << [k |-> "hdrdel", h |-> hm + 1] >>                                 \* drop a value
+         [] k = 3  -> << [k |-> "hdrins", at |-> hm, name |-> B("My-Header1"), v |-> B("v1")] >>  \* duplicate a value
+         [] k = 4  -> << [k |-> "hdrins", at |-> 1, name |-> B("X-New"), v |-> B("n")] >>  \* add an unsigned header
+         [] k = 5  -> << [k |-> "hdrdel", h |-> hu] >>                                     \* remove an unsigned header
+         [] k = 6  -> << [k |-> "hdrset", h |-> hu, v |-> B("changed")] >>                 \* change an unsigned header
+         [] k = 7  -> << [k |-> "hdrset", h |-> hx, v |-> B(" a b ")] >>                   \* respace a signed value
+         [] k = 8  -> << [k |-> "hdrset", h |-> hx, v |-> B("ab")] >>                      \* remove the inner space
+         [] k = 9  -> << [k |-> "hdrset", h |-> hx, v |-> B("A  b")] >>                    \* letter case of a value
+         [] k = 10 -> << [k |-> "method", v |-> B("PUT")] >>
+         [] k = 11 -> << [k |-> "version", v |-> "HTTP/1.0"] >>
+         [] k = 12 -> << [k |-> "uri", v |-> UriOf(UriPath(w.uri), Join(DropAt(qs, 1), <<AMP>>))] >>       \* drop a parameter
+         [] k = 13 -> << [k |-> "uri", v |-> UriOf(UriPath(w.uri), Join(<<qs[1]>> \o qs, <<AMP>>))] >>       \* duplicate a parameter
+         [] k = 14 -> << [k |-> "uri", v |-> UriOf(UriPath(w.uri), Join(qs \o <<B("z=9")>>, <<AMP>>))] >>    \* add a parameter
+         [] k = 15 -> << [k |-> "uri", v |-> UriOf(UriPath(w.uri) \o B("/"), UriQuery(w.uri))] >>            \* trailing slash
+         [] k = 16 -> << [k |-> "body", v |-> <<>>] >>
+         [] k = 17 -> << [k |-> "body", v |-> w.body \o B("!")] >>
+         [] k = 18 -> << [k |-> "body", v |-> SubSeq(w.body, 1, Len(w.body) - 1)] >>
+         [] k = 19 -> << [k |-> "hdrname", h |-> hx, v |-> B("X-Amz-Metb")] >>                                \* rename a signed header
+         [] k = 20 -> << [k |-> "hdrset", h |-> HdrIndex(w, bHost), v |-> B("evil.example.com")] >>
+NumStruct == 20
+
+\* ---------------------------------------------------------------- C03 material
+ScopeVariants == <<
+    <<B("20150830"), B("us-east-1"), B("service"), B("aws4_request")>>,
+    <<>>, <<B("20150830")>>, <<B("20150830"), B("us-east-1")>>,
+    <<B("20150830"), B("us-east-1"), B("service")>>,
+    <<B("20150830"), B("us-east-1"), B("service"), B("aws4_request"), <<>> >>,
+    <<B("20150830"), B("us-east-1"), <<>>, B("service"), B("aws4_request")>>,
+    <<B("20150830"), B("us-east-1"), B("service"), B("aws4_request"), B("x"), B("y")>>,
+    <<B("20150830"), B("us-east"), B("service"), B("aws4_request")>>,
+    <<B("20150830"), B("east-1"), B("service"), B("aws4_request")>>,
+    <<B("20150830"), B("US-EAST-1"), B("service"), B("aws4_request")>>,
+    <<B("20150830"), <<>>, B("service"), B("aws4_request")>>,
+    <<B("20150830"), B("us-east-1a"), B("service"), B("aws4_request")>>,
+    <<B("20150830"), <<195, 169>>, B("service"), B("aws4_request")>>,
+    <<B("20150830"), B("us-east-1"), B("servic"), B("aws4_request")>>,
+    <<B("20150830"), B("us-east-1"), B("services"), B("aws4_request")>>,
+    <<B("20150830"), B("us-east-1"), B("Service"), B("aws4_request")>>,
+    <<B("20150830"), B("us-east-1"), <<>>, B("aws4_request")>>,
+    <<B("20150830"), B("service"), B("us-east-1"), B("aws4_request")>>,
+    <<B("20150830"), B("us-east-1"), B("service"), B("aws4_reques")>>,
+    <<B("20150830"), B("us-east-1"), B("service"), B("AWS4_REQUEST")>>,
+    <<B("20150830"), B("us-east-1"), B("service"), B("aws5_request")>>,
+    <<B("20150830"), B("us-east-1"), B("service"), <<>> >>,
+    <<B("20150829"), B("us-east-1"), B("service"), B("aws4_request")>>,
+    <<B("20150831"), B("us-east-1"), B("service"), B("aws4_request")>>,
+    <<B("2015083"), B("us-east-1"), B("service"), B("aws4_request")>>,
+    <<B("201508300"), B("us-east-1"), B("service"), B("aws4_request")>>,
+    <<B("2015-08-30"), B("us-east-1"), B("service"), B("aws4_request")>>,
+    << <<>>, B("us-east-1"), B("service"), B("aws4_request")>>,
+    <<B("20150830"), B("us"), B("us-east"), B("aws4_request")>>,
+    <<B("20150830"), <<195, 169>>, B("s3"), B("aws4_request")>> >>
+ScopeCfgs == << <<B("us-east-1"), B("service")>>, <<B("us"), B("us-east")>>, << <<195, 169>>, B("s3")>> >>
+\* timestamps near midnight UTC and offsets that move the UTC date: <<timestamp, now, credential date>>
+MidnightCases == <<
+    <<B("20150830T235959Z"), Inst(2015, 8, 30, 23, 59, 59, 0), B("20150830")>>,
+    <<B("20150831T000000Z"), Inst(2015, 8, 30, 23, 59, 59, 0), B("20150831")>>,
+    <<B("20150831T000000Z"), Inst(2015, 8, 30, 23, 59, 59, 0), B("20150830")>>,
+    <<B("20150831T003000+0200"), Inst(2015, 8, 30, 22, 30, 0, 0), B("20150830")>>,
+    <<B("20150831T003000+0200"), Inst(2015, 8, 30, 22, 30, 0, 0), B("20150831")>>,
+    <<B("20150830T223000-0300"), Inst(2015, 8, 31, 1, 30, 0, 0), B("20150831")>>,
+    <<B("20150830T223000-0300"), Inst(2015, 8, 31, 1, 30, 0, 0), B("20150830")>>,
+    <<B("20160229T235959Z"), Inst(2016, 3, 1, 0, 0, 0, 0), B("20160229")>>,
+    <<B("20160301T000000Z"), Inst(2016, 2, 29, 23, 59, 59, 0), B("20160301")>>,
+    <<B("20151231T235959Z"), Inst(2016, 1, 1, 0, 5, 0, 0), B("20151231")>>,
+    <<B("20160101T000000+0000"), Inst(2015, 12, 31, 23, 55, 0, 0), B("20160101")>> >>
+
+\* ---------------------------------------------------------------- C04 material
+WindowNows == << Inst(2015, 8, 30, 12, 36, 0, 0), Inst(2016, 2, 29, 0, 0, 0, 0), Inst(2015, 12, 31, 23, 59, 59, 0),
+                 Inst(2016, 1, 1, 0, 7, 0, 0), Inst(2100, 3, 1, 0, 0, 0, 0), Inst(2015, 8, 30, 12, 36, 0, 500000000) >>
+AddNano(i, n) ==
+    LET t == i[3] + n IN
+    IF t < 0 THEN LET j == AddSec(i, -1) IN <<j[1], j[2], t + 1000000000>>
+    ELSE IF t >= 1000000000 THEN LET j == AddSec(i, 1) IN <<j[1], j[2], t - 1000000000>>
+    ELSE <<i[1], i[2], t>>
+\* whole-second offsets; Bound = 0: +-(880..920); Bound = 1: every second of [-1200, 1200]
+NumOffsets == IF Bound = 0 THEN 82 ELSE 2401
+OffsetOf(k) == IF Bound = 0 THEN (IF k <= 41 THEN -(879 + k) ELSE 879 + (k - 41)) ELSE k - 1201
+\* sub-second probes around both bounds: <<seconds, nanoseconds>>
+SubSecond == << <<-900, -1>>, <<-900, 1>>, <<900, -1>>, <<900, 1>>, <<-900, -500000000>>, <<-900, 500000000>>,
+                <<900, -500000000>>, <<900, 500000000>>, <<0, 1>>, <<0, -1>> >>
+Frac9(n) == <<46>> \o Dec(n, 9)
+RenderTs(inst, style) ==
+    LET off == CASE style = 3 -> 19800 [] style = 4 -> -9900 [] OTHER -> 0
+        loc == AddSec(inst, off)
+        f   == Fields(loc)
+        ext == style \in {2, 3}
+        frac == IF inst[3] # 0 \/ style = 5 THEN Frac9(inst[3]) ELSE <<>>
+        zone == CASE style = 3 -> B("+05:30") [] style = 4 -> B("-0245") [] OTHER -> B("Z")
+    IN Dec(f[1], 4) \o (IF ext THEN <<45>> ELSE <<>>) \o Dec(f[2], 2) \o (IF ext THEN <<45>> ELSE <<>>) \o Dec(f[3], 2)
+       \o <<84>> \o Dec(f[4], 2) \o (IF ext THEN <<58>> ELSE <<>>) \o Dec(f[5], 2) \o (IF ext THEN <<58>> ELSE <<>>)
+       \o Dec(f[6], 2) \o frac \o zone
+
+\* ---------------------------------------------------------------- C05 material
+ReqAlways == <<B("content-type"), B("x-req")>>
+ReqIfIn   == <<B("etag"), B("x-opt")>>
+ReqPrefix == <<B("x-amz"), B("x-a")>>
+Styled(n, style) == CASE style = 1 -> n [] style = 2 -> UpperSeq(n)
+                      [] style = 3 -> [i \in 1..Len(n) |-> IF i % 2 = 1 THEN UpperC(n[i]) ELSE n[i]]
+SubsetOf(names, mask) == SelectSeq([i \in 1..Len(names) |-> IF (mask \div (2 ^ (i - 1))) % 2 = 1 THEN names[i] ELSE <<>>],
+                                   LAMBDA x : x # <<>>)
+StyledSubset(names, mask, style) == [i \in 1..Len(SubsetOf(names, mask)) |-> Styled(SubsetOf(names, mask)[i], style)]
+ReqHdrSets == <<
+    << <<B("Content-Type"), B("text/plain")>>, <<B("ETag"), B("e1")>>, <<B("X-Amz-Meta"), B("m")>>, <<B("X-Abc"), B("a")>> >>,
+    << <<B("X-Req"), B("r")>>, <<B("X-Opt"), B("o")>>, <<B("X-Amz-Target"), B("t")>>, <<B("x-amz-meta"), B("m")>> >>,
+    << >>,
+    << <<B("Content-Type"), B("a/b")>>, <<B("X-Req"), B("r")>>, <<B("ETag"), B("e")>>, <<B("X-Opt"), B("o")>>,
+       <<B("X-Amz-A"), B("1")>>, <<B("X-A1"), B("2")>> >> >>
+ReqImpls == <<"slice", "vec", "vecadd">>
+
+\* ---------------------------------------------------------------- C12 material
+FoldComps == << B("a=1"), B("a=2"), B("a="), B("b=1"), B("b=2"), B("b=") >>
+\* list number 1..43: 1 = empty, 2..7 one component, 8..43 two components
+FoldList(n) == IF n = 1 THEN <<>> ELSE IF n <= 7 THEN FoldComps[n - 1]
+               ELSE FoldComps[((n - 8) \div 6) + 1] \o <<AMP>> \o FoldComps[((n - 8) % 6) + 1]
+ContentTypes == << B("application/x-www-form-urlencoded"),
+                   B("application/x-www-form-urlencoded; charset=utf-8"),
+                   B("application/x-www-form-urlencoded;charset=UTF8"),
+                   B("application/x-www-form-urlencoded ; charset=unicode-1-1-utf-8"),
+                   B("application/x-www-form-urlencoded; charset=foobar"),
+                   B("application/x-www-form-urlencoded; hello=world; charset=utf-8"),
+                   B("text/plain"), B("application/json"), <<>>,
+                   B("Application/X-WWW-Form-Urlencoded"),
+                   B("application/x-www-form-urlencoded; charset=latin1"),
+                   B("application/x-www-form-urlencoded; charset="),
+                   B("multipart/form-data; boundary=x") >>
+
+\* ---------------------------------------------------------------- C19: repeated authentication inputs
+TsA == B("20150830T123600Z")
+TsB == B("20150830T123000Z")
+CredOf(akid) == Join(<<akid>> \o DefaultL.scope, <<SLASH>>)
+AuthFor(akid, sig) == bAlgorithm \o B(" Credential=") \o CredOf(akid) \o B(", SignedHeaders=host;x-amz-date, Signature=") \o sig
+HdrB == Bundle0("hdr")
+QryB == Bundle0("qry")
+WithPost(b, post, over) == [b EXCEPT !.post = post, !.over = over]
+NoOver == [dup |-> TRUE]          \* duplicates are part of what was signed; nothing to choose
+QPre == B("/?X-Amz-Algorithm=AWS4-HMAC-SHA256&X-Amz-Credential=") \o Enc(CredOf(B("AKIDEXAMPLE")))
+QUri(v) == [k |-> "uri", v |-> v]
+\* header positions in the default header-carrier wire: 1 host, 2 x-amz-date, 3 authorization
+DupCases == <<
+    \* two Authorization headers: the first one counts
+    WithPost(HdrB, << [k |-> "hdrins", at |-> 4, name |-> B("Authorization"), v |-> B("Basic dXNlcjpwYXNz")] >>, NoOver),
+    WithPost(HdrB, << [k |-> "hdrins", at |-> 3, name |-> B("Authorization"), v |-> B("Basic dXNlcjpwYXNz")] >>, NoOver),
+    WithPost(HdrB, << [k |-> "hdrins", at |-> 4, name |-> B("Authorization"), v |-> AuthFor(B("OTHERKEY"), B("00"))] >>, NoOver),
+    WithPost(HdrB, << [k |-> "hdrins", at |-> 3, name |-> B("Authorization"), v |-> AuthFor(B("OTHERKEY"), B("00"))] >>, NoOver),
+    \* repeated parameters inside the header: the last one counts
+    WithPost(HdrB, << [k |-> "hdrset", h |-> 3, v |-> bAlgorithm \o B(" Credential=") \o CredOf(B("WRONG")) \o B(", Credential=") \o CredOf(B("AKIDEXAMPLE"))
+                                                    \o B(", SignedHeaders=host;x-amz-date, Signature=") \o bSIG] >>, NoOver),
+    WithPost(HdrB, << [k |-> "hdrset", h |-> 3, v |-> bAlgorithm \o B(" Credential=") \o CredOf(B("AKIDEXAMPLE")) \o B(", Credential=") \o CredOf(B("WRONG"))
+                                                    \o B(", SignedHeaders=host;x-amz-date, Signature=") \o bSIG] >>,
+             [cred |-> CredOf(B("AKIDEXAMPLE"))]),
+    WithPost(HdrB, << [k |-> "hdrset", h |-> 3, v |-> bAlgorithm \o B(" Credential=") \o CredOf(B("AKIDEXAMPLE"))
+                                                    \o B(", SignedHeaders=host;x-amz-date, Signature=00, Signature=") \o bSIG] >>, NoOver),
+    WithPost(HdrB, << [k |-> "hdrset", h |-> 3, v |-> bAlgorithm \o B(" Credential=") \o CredOf(B("AKIDEXAMPLE"))
+                                                    \o B(", SignedHeaders=host;x-amz-date, Signature=") \o bSIG \o B(", Signature=00")] >>, NoOver),
+    WithPost(HdrB, << [k |-> "hdrset", h |-> 3, v |-> bAlgorithm \o B(" Credential=") \o CredOf(B("AKIDEXAMPLE"))
+                                                    \o B(", SignedHeaders=host, SignedHeaders=host;x-amz-date, Signature=") \o bSIG] >>,
+             [signed |-> <<B("host"), B("x-amz-date")>>]),
+    WithPost(HdrB, << [k |-> "hdrset", h |-> 3, v |-> bAlgorithm \o B(" Credential=") \o CredOf(B("AKIDEXAMPLE"))
+                                                    \o B(", SignedHeaders=host;x-amz-date, SignedHeaders=host, Signature=") \o bSIG] >>,
+             [signed |-> <<B("host"), B("x-amz-date")>>]),
+    \* two X-Amz-Date headers: the first one counts (both are in the signed block)
+    WithPost(HdrB, << [k |-> "hdrins", at |-> 3, name |-> B("X-Amz-Date"), v |-> TsB] >>, [ts |-> TsA]),
+    WithPost(HdrB, << [k |-> "hdrins", at |-> 2, name |-> B("X-Amz-Date"), v |-> TsB] >>, [ts |-> TsA]),
+    \* Date and X-Amz-Date together: X-Amz-Date counts, in either arrival order
+    WithPost(HdrB, << [k |-> "hdrins", at |-> 2, name |-> B("Date"), v |-> TsB] >>, [ts |-> TsA]),
+    WithPost(HdrB, << [k |-> "hdrins", at |-> 3, name |-> B("Date"), v |-> TsB] >>, [ts |-> TsA]),
+    WithPost(HdrB, << [k |-> "hdrins", at |-> 2, name |-> B("Date"), v |-> TsB] >>, [ts |-> TsB]),
+    WithPost(HdrB, << [k |-> "hdrins", at |-> 3, name |-> B("Date"), v |-> TsB] >>, [ts |-> TsB]),
+    \* only a Date header
+    WithPost([HdrB EXCEPT !.L.dateHeader = B("Date"), !.L.signed = <<B("date"), B("host")>>], <<>>, NoOver),
+    \* two security-token headers: the first one is handed to the provider
+    WithPost([HdrB EXCEPT !.L.hasToken = TRUE, !.L.token = B("tokenONE"), !.L.signed = <<B("host"), B("x-amz-date"), B("x-amz-security-token")>>],
+             << [k |-> "hdrins", at |-> 4, name |-> B("X-Amz-Security-Token"), v |-> B("tokenTWO")] >>, NoOver),
+    WithPost([HdrB EXCEPT !.L.hasToken = TRUE, !.L.token = B("tokenONE"), !.L.signed = <<B("host"), B("x-amz-date"), B("x-amz-security-token")>>],
+             << [k |-> "hdrins", at |-> 3, name |-> B("X-Amz-Security-Token"), v |-> B("tokenTWO")] >>, NoOver),
+    \* both carriers at once
+    WithPost([HdrB EXCEPT !.L.both = TRUE], <<>>, NoOver),
+    WithPost([QryB EXCEPT !.L.both = TRUE], <<>>, NoOver),
+    \* repeated X-Amz-* query parameters: the first one counts
+    WithPost(QryB, << QUri(B("/?X-Amz-Algorithm=AWS4-HMAC-SHA256&X-Amz-Algorithm=AWS4-HMAC-SHA512&X-Amz-Credential=") \o Enc(CredOf(B("AKIDEXAMPLE")))
+                          \o B("&X-Amz-Date=20150830T123600Z&X-Amz-SignedHeaders=host&X-Amz-Signature=") \o bSIG) >>, NoOver),
+    WithPost(QryB, << QUri(B("/?X-Amz-Algorithm=AWS4-HMAC-SHA512&X-Amz-Algorithm=AWS4-HMAC-SHA256&X-Amz-Credential=") \o Enc(CredOf(B("AKIDEXAMPLE")))
+                          \o B("&X-Amz-Date=20150830T123600Z&X-Amz-SignedHeaders=host&X-Amz-Signature=") \o bSIG) >>, NoOver),
+    WithPost(QryB, << QUri(QPre \o B("&X-Amz-Credential=") \o Enc(CredOf(B("WRONG")))
+                          \o B("&X-Amz-Date=20150830T123600Z&X-Amz-SignedHeaders=host&X-Amz-Signature=") \o bSIG) >>, NoOver),
+    WithPost(QryB, << QUri(B("/?X-Amz-Algorithm=AWS4-HMAC-SHA256&X-Amz-Credential=") \o Enc(CredOf(B("WRONG")))
+                          \o B("&X-Amz-Credential=") \o Enc(CredOf(B("AKIDEXAMPLE")))
+                          \o B("&X-Amz-Date=20150830T123600Z&X-Amz-SignedHeaders=host&X-Amz-Signature=") \o bSIG) >>,
+             [cred |-> CredOf(B("AKIDEXAMPLE"))]),
+    WithPost(QryB, << QUri(QPre \o B("&X-Amz-Date=20150830T123600Z&X-Amz-Date=20150830T123000Z&X-Amz-SignedHeaders=host&X-Amz-Signature=") \o bSIG) >>, NoOver),
+    WithPost(QryB, << QUri(QPre \o B("&X-Amz-Date=20150830T123000Z&X-Amz-Date=20150830T123600Z&X-Amz-SignedHeaders=host&X-Amz-Signature=") \o bSIG) >>,
+             [ts |-> TsA]),
+    WithPost(QryB, << QUri(QPre \o B("&X-Amz-Date=20150830T123600Z&X-Amz-SignedHeaders=host&X-Amz-SignedHeaders=host%3Bx-none&X-Amz-Signature=") \o bSIG) >>, NoOver),
+    WithPost(QryB, << QUri(QPre \o B("&X-Amz-Date=20150830T123600Z&X-Amz-SignedHeaders=host%3Bx-none&X-Amz-SignedHeaders=host&X-Amz-Signature=") \o bSIG) >>,
+             [signed |-> <<B("host")>>]),
+    WithPost(QryB, << QUri(QPre \o B("&X-Amz-Date=20150830T123600Z&X-Amz-SignedHeaders=host&X-Amz-Signature=") \o bSIG \o B("&X-Amz-Signature=00")) >>, NoOver),
+    WithPost(QryB, << QUri(QPre \o B("&X-Amz-Date=20150830T123600Z&X-Amz-SignedHeaders=host&X-Amz-Signature=00&X-Amz-Signature=") \o bSIG) >>, NoOver),
+    WithPost(QryB, << QUri(QPre \o B("&X-Amz-Date=20150830T123600Z&X-Amz-Security-Token=tokenONE&X-Amz-Security-Token=tokenTWO&X-Amz-SignedHeaders=host&X-Amz-Signature=") \o bSIG) >>, NoOver),
+    \* an X-Amz-Date header on a query-carrier request is not consulted
+    WithPost(QryB, << [k |-> "hdrins", at |-> 2, name |-> B("X-Amz-Date"), v |-> TsB] >>, NoOver)
+    >>
+
+\* ---------------------------------------------------------------- C08 material
+CharsetLabels == SetToSeq(Utf8Labels) \o SetToSeq(OtherKnownLabels)
+                 \o << B("foobar"), B("utf-9"), <<>>, B(" UTF-8 "), B("\"utf-8\""), B("utf-8;"), B("x-unknown") >>
+CharsetBodies == << <<>>, B("a=1&b=%20"), <<97, 61, 255>>, <<97>>, <<254, 255, 0, 97>> >>
+AuthSet(v) == [k |-> "hdrset", h |-> 3, v |-> v]
+LongA(n) == [i \in 1..n |-> 97]
+Degenerate == <<
+    << [k |-> "uri", v |-> B("*")], [k |-> "method", v |-> B("OPTIONS")] >>,
+    << [k |-> "uri", v |-> B("example.com:443")], [k |-> "method", v |-> B("CONNECT")] >>,
+    << [k |-> "uri", v |-> B("http://example.com/a%20b?b=1")] >>,
+    << [k |-> "uri", v |-> B("http://example.com")] >>,
+    << [k |-> "uri", v |-> B("/?")] >>, << [k |-> "uri", v |-> B("/??")] >>, << [k |-> "uri", v |-> B("/%")] >>,
+    << [k |-> "uri", v |-> B("/a%")] >>, << [k |-> "uri", v |-> B("/?%")] >>, << [k |-> "uri", v |-> B("/?a=%")] >>,
+    << [k |-> "uri", v |-> B("//")] >>, << [k |-> "uri", v |-> B("/./")] >>, << [k |-> "uri", v |-> B("/..")] >>,
+    << [k |-> "uri", v |-> B("/?=")] >>, << [k |-> "uri", v |-> B("/?&")] >>, << [k |-> "uri", v |-> B("/?=&=&")] >>,
+    << [k |-> "uri", v |-> B("/") \o LongA(8000)] >>,
+    << [k |-> "uri", v |-> B("/?") \o LongA(8000) \o B("=") \o LongA(8000)] >>,
+    << AuthSet(<<>>) >>, << AuthSet(B("  ")) >>, << AuthSet(B("AWS4-HMAC-SHA256")) >>, << AuthSet(B("AWS4-HMAC-SHA256 ")) >>,
+    << AuthSet(B("AWS4-HMAC-SHA256 =")) >>, << AuthSet(B("AWS4-HMAC-SHA256 ,,,")) >>, << AuthSet(B("AWS4-HMAC-SHA256 Credential")) >>,
+    << AuthSet(B("AWS4-HMAC-SHA256 Credential=")) >>, << AuthSet(B("AWS4-HMAC-SHA256 Credential=, SignedHeaders=, Signature=")) >>,
+    << AuthSet(B("AWS4-HMAC-SHA256 Credential=/, SignedHeaders=;, Signature=")) >>,
+    << AuthSet(B("AWS4-HMAC-SHA256 Credential=////, SignedHeaders=;;host;, Signature==")) >>,
+    << AuthSet(B("AWS4-HMAC-SHA256") \o <<9>> \o B("Credential=a/b/c/d/e, SignedHeaders=host, Signature=0")) >>,
+    << AuthSet(B("AWS4-HMAC-SHA256 Credential=") \o LongA(8192) \o B("/20150830/us-east-1/service/aws4_request, SignedHeaders=host;x-amz-date, Signature=0")) >>,
+    << AuthSet(B("AWS4-HMAC-SHA256 Credential=") \o <<233, 255, 128>> \o B("/20150830/us-east-1/service/aws4_request, SignedHeaders=host;x-amz-date, Signature=") \o <<255>>) >>,
+    << AuthSet(B("AWS4-HMAC-SHA256 Credential=AKIDEXAMPLE/20150830/us-east-1/service/aws4_request, SignedHeaders=") \o <<233>> \o B(";host, Signature=0")) >>,
+    << AuthSet(B("Basic dXNlcjpwYXNz")) >>, << AuthSet(B("AWS4-HMAC-SHA256Credential=x")) >>,
+    << [k |-> "hdrset", h |-> 2, v |-> <<>>] >>, << [k |-> "hdrset", h |-> 2, v |-> B("   ")] >>,
+    << [k |-> "hdrset", h |-> 2, v |-> <<255, 254>>] >>,
+    << [k |-> "hdrset", h |-> 1, v |-> <<>>] >>,
+    << [k |-> "hdrdel", h |-> 1] >>,
+    << [k |-> "hdrins", at |-> 1, name |-> B("Content-Type"), v |-> <<>>] >>,
+    << [k |-> "hdrins", at |-> 1, name |-> B("Content-Type"), v |-> B(";;;=;charset")] >>,
+    << [k |-> "hdrins", at |-> 1, name |-> B("Content-Type"), v |-> B("application/x-www-form-urlencoded;charset=;charset=utf-8")] >>,
+    << [k |-> "body", v |-> LongA(70000)] >> >>
+
+\* C07: positions at which the presented signature first differs from the expected one (-1 = control repeat of 0)
+CtPositions == IF Bound = 0 THEN <<0, -1, 1, 2, 15, 31, 32, 47, 62, 63>>
+               ELSE <<0, -1>> \o [k \in 1..63 |-> k]
+
+\* ---------------------------------------------------------------- index tree
 DefectBits == SubSeq(idx, 2, Min2(Len(idx), Len(DefectList) + 1))
 DefectSet == {DefectList[k] : k \in {j \in 1..Len(DefectBits) : DefectBits[j] = 2}}
 NumSet(k) == Cardinality({j \in 2..Min2(k, Len(idx)) : idx[j] = 2})
 
+V(seq, k) == IF k <= Len(seq) THEN seq[k] ELSE 0
+
 Dim(k) ==
-    CASE Family = "defects" ->
+    CASE Family \in {"defects", "leak_defects"} ->
             IF k = 1 THEN 2
             ELSE IF k <= Len(DefectList) + 1 THEN (IF NumSet(k - 1) >= Bound THEN 1 ELSE 2)
             ELSE IF k = Len(DefectList) + 2 THEN 3          \* witness
             ELSE 0
-      [] Family = "scripts"  -> IF k <= 6 THEN <<3, 3, 3, 3, 4, 5>>[k] ELSE 0
-      [] Family = "sigmut"   -> IF k <= 2 THEN <<2, 68>>[k] ELSE 0
-      [] Family = "base"     -> IF k <= 8 THEN (IF Bound = 0 THEN <<2, 2, 3, 3, 3, 2, 2, 2>> ELSE <<2, 4, 6, 6, 5, 3, 2, 2>>)[k] ELSE 0
+      [] Family = "scripts"  -> V(<<3, 3, 3, 3, 4, 5>>, k)
+      [] Family = "leak_scripts" -> V(<<1, 3, 1, 3, 4, 2>>, k)
+      [] Family \in {"sigmut", "leak_sigmut"} -> V(<<2, 68>>, k)
+      [] Family = "base"     -> V(IF Bound = 0 THEN <<2, 2, 3, 3, 3, 2, 2, 2>> ELSE <<2, 4, 6, 6, 5, 3, 2, 2>>, k)
+      [] Family = "mut_uri"  -> IF k = 1 THEN 2 ELSE IF k = 2 THEN Len(RichW(CarrierOf(idx[1])).uri) ELSE 0
+      [] Family = "mut_hdr"  -> IF k = 1 THEN 2 ELSE IF k = 2 THEN Len(HdrPositions(RichW(CarrierOf(idx[1])))) ELSE 0
+      [] Family = "mut_body" -> IF k = 1 THEN 2 ELSE IF k = 2 THEN Len(RichL("hdr").body) ELSE 0
+      [] Family = "mut_struct" -> V(<<2, NumStruct>>, k)
+      [] Family = "mut_key"  -> V(<<2, 3>>, k)
+      [] Family = "spell"    -> V(<<2, 3, NumSpell, 3>>, k)
+      [] Family = "scope"    -> V(<<2, Len(ScopeCfgs), Len(ScopeVariants)>>, k)
+      [] Family = "midnight" -> V(<<2, Len(MidnightCases)>>, k)
+      [] Family = "window"   -> V(<<2, IF Bound = 0 THEN 1 ELSE Len(WindowNows), NumOffsets + Len(SubSecond), 5>>, k)
+      [] Family = "reqs"     -> V(CASE Bound = 0 -> <<4, 4, 4, 3, 1, 1, 8>> [] Bound = 1 -> <<4, 4, 4, 3, 4, 2, 8>>
+                                    [] OTHER -> <<4, 4, 4, 3, 4, 2, 64>>, k)
+      \* Bound 0: URL and body lists of <= 1 component, bodies as sent; 1: three lists (incl. the same name in both)
+      \* with body variants and post-signing body flips; 2: every pair of lists of <= 2 components
+      [] Family = "fold"     -> V(CASE Bound = 0 -> <<2, 7, 7, Len(ContentTypes), 2, 1, 1>>
+                                    [] Bound = 1 -> <<2, 3, 3, Len(ContentTypes), 2, 3, 2>>
+                                    [] OTHER -> <<2, 43, 43, Len(ContentTypes), 2, 1, 2>>, k)
+      [] Family = "dup"      -> V(<<Len(DupCases)>>, k)
+      [] Family = "ct"       -> V(<<IF Bound = 0 THEN 1 ELSE 3, IF Bound = 0 THEN 1 ELSE 2, Len(CtPositions)>>, k)
+      [] Family = "charsets" -> V(<<Len(CharsetLabels), IF Bound = 0 THEN 3 ELSE Len(CharsetBodies), 2>>, k)
+      [] Family = "degenerate" -> V(<<Len(Degenerate), 2>>, k)
+      [] Family = "passthru" -> V(<<2, Len(Methods), Len(Versions), Len(HdrSets), 3, 2>>, k)
 
 IsLeaf == Dim(Len(idx) + 1) = 0
 IsCase ==
     /\ IsLeaf
-    /\ Family = "defects" => ~({11, 12} \subseteq DefectSet) /\ ~(7 \in DefectSet /\ idx[1] = 2)
+    /\ Family \in {"defects", "leak_defects"} => ~({11, 12} \subseteq DefectSet) /\ ~(7 \in DefectSet /\ idx[1] = 2)
 
-CarrierOf(k) == IF k = 1 THEN "hdr" ELSE "qry"
+\* ---------------------------------------------------------------- bundles per family
+ReqNames(hs) == SortLex(SetToSeq({LowerSeq(hs[i][1]) : i \in 1..Len(hs)}))
 
 BundleOf ==
-    CASE Family = "defects" ->
+    CASE Family \in {"defects", "leak_defects"} ->
             \* an unparsable date has no instant: {10, 11|12} is realised as {10} (masked anyway)
             InjectAll(Bundle0(CarrierOf(idx[1])),
                       SetToSortSeq(IF 10 \in DefectSet THEN DefectSet \ {11, 12} ELSE DefectSet, <), 1, idx[Len(idx)])
-      [] Family = "scripts" ->
+      [] Family \in {"scripts", "leak_scripts"} ->
             LET b == Bundle0("hdr")
                 pend == <<0, 1, 3>>
                 outc == <<"ok", "sigerr", "foreign">>
@@ -162,7 +547,7 @@ BundleOf ==
                                             answer |-> outc[idx[4]], errKind |-> kinds[idx[5]], principal |-> 40 + idx[1],
                                             secret |-> Secret1]]
             IN IF dfs[idx[6]] = 0 THEN b2 ELSE Inject(b2, dfs[idx[6]], 1)
-      [] Family = "sigmut" ->
+      [] Family \in {"sigmut", "leak_sigmut"} ->
             LET b == Bundle0(CarrierOf(idx[1]))
                 k == idx[2]
             IN [b EXCEPT !.sigmut = CASE k <= 64 -> [kind |-> "flip", pos |-> k - 1]
@@ -174,16 +559,121 @@ BundleOf ==
             LET b == Bundle0(CarrierOf(idx[1]))
                 L1 == [b.L EXCEPT !.method = Methods[idx[2]], !.path = Paths[idx[3]], !.query = Queries[idx[4]],
                                   !.hdrs = @ \o HdrSets[idx[5]], !.body = Bodies[idx[6]],
-                                  !.hasToken = Bool(idx[7]), !.token = IF Bool(idx[7]) THEN B("AQoDYXdzEPT//////////wEXAMPLE+tok/en==") ELSE <<>>]
-                L2 == IF idx[1] = 1 THEN [L1 EXCEPT !.signed = SignAll(L1)] ELSE [L1 EXCEPT !.signed = SignAll(L1)]
-            IN [b EXCEPT !.L = L2, !.cfg.s3 = Bool(idx[8])]
+                                  !.hasToken = Bool(idx[7]), !.token = IF Bool(idx[7]) THEN TokenV ELSE <<>>]
+            IN [b EXCEPT !.L = [L1 EXCEPT !.signed = SignAll(L1)], !.cfg.s3 = Bool(idx[8])]
+      [] Family = "mut_uri" ->
+            [RichB(CarrierOf(idx[1])) EXCEPT !.post = << [k |-> "uribyte", pos |-> idx[2]] >>]
+      [] Family = "mut_hdr" ->
+            LET c == CarrierOf(idx[1])
+                hp == HdrPositions(RichW(c))[idx[2]]
+            IN [RichB(c) EXCEPT !.post = << [k |-> "hdrbyte", h |-> hp[1], pos |-> hp[2]] >>]
+      [] Family = "mut_body" ->
+            LET c == CarrierOf(idx[1]) IN
+            [RichB(c) EXCEPT !.post = << [k |-> "body", v |-> SetAt(RichL(c).body, idx[2], OtherByte(RichL(c).body[idx[2]]))] >>]
+      [] Family = "mut_struct" ->
+            LET c == CarrierOf(idx[1]) IN [RichB(c) EXCEPT !.post = StructMut(RichW(c), idx[2])]
+      [] Family = "mut_key" ->
+            \* the key differs: provider holds another secret / signer used another secret / both the other secret
+            LET b == RichB(CarrierOf(idx[1])) IN
+            (CASE idx[2] = 1 -> [b EXCEPT !.script.secret = Secret2]
+               [] idx[2] = 2 -> [b EXCEPT !.signSecret = Secret2]
+               [] idx[2] = 3 -> [b EXCEPT !.script.secret = Secret2, !.signSecret = Secret2])
+      [] Family = "spell" ->
+            LET c == CarrierOf(idx[1])
+                b == CASE idx[2] = 1 -> RichB(c)
+                       [] idx[2] = 2 -> [RichB(c) EXCEPT !.L.paramSep = B(","), !.L.path = B("/%E2%82%AC/a-c_~.x/"),
+                                                         !.L.query = B("k=%E2%82%AC%20a&k=%2F&c=&a")]
+                       [] idx[2] = 3 -> [RichB(c) EXCEPT !.cfg.s3 = TRUE, !.L.path = B("/a//c/./%7Ea/../x"), !.L.paramSep = B(",   ")]
+                nows == <<NowBase, AddSec(NowBase, -900), AddSec(NowBase, 900)>>
+            IN [b EXCEPT !.post = SpellRecipe(MkX(b.L), idx[3]), !.cfg.now = nows[idx[4]]]
+      [] Family = "scope" ->
+            LET b == Bundle0(CarrierOf(idx[1])) IN
+            [b EXCEPT !.L.scope = ScopeVariants[idx[3]], !.cfg.region = ScopeCfgs[idx[2]][1], !.cfg.service = ScopeCfgs[idx[2]][2]]
+      [] Family = "midnight" ->
+            LET b == Bundle0(CarrierOf(idx[1]))
+                m == MidnightCases[idx[2]]
+            IN [b EXCEPT !.L.ts = m[1], !.cfg.now = m[2], !.L.scope = [@ EXCEPT ![1] = m[3]]]
+      [] Family = "window" ->
+            LET b    == Bundle0(CarrierOf(idx[1]))
+                now  == WindowNows[idx[2]]
+                k    == idx[3]
+                inst == IF k <= NumOffsets THEN AddSec(now, OffsetOf(k))
+                        ELSE AddNano(AddSec(now, SubSecond[k - NumOffsets][1]), SubSecond[k - NumOffsets][2])
+            IN [b EXCEPT !.L.ts = RenderTs(inst, idx[4]), !.cfg.now = now,
+                         !.L.scope = [@ EXCEPT ![1] = ScopeDate(inst)]]
+      [] Family = "reqs" ->
+            LET style == idx[4]
+                hs    == ReqHdrSets[idx[5]]
+                names == ReqNames(hs)
+                full  == (2 ^ Len(names)) - 1
+                \* quick: sign all / none / all but one; thorough: every subset
+                mask  == IF Bound < 2
+                         THEN (CASE idx[7] = 1 -> full [] idx[7] = 2 -> 0
+                                 [] OTHER -> IF idx[7] - 2 <= Len(names) THEN full - (2 ^ (idx[7] - 3)) ELSE full)
+                         ELSE (idx[7] - 1) % (full + 1)
+                b     == Bundle0(IF idx[6] = 1 THEN "hdr" ELSE "qry")
+                base  == IF idx[6] = 1 THEN <<B("host"), B("x-amz-date")>> ELSE <<B("host")>>
+            IN [b EXCEPT !.L.hdrs = @ \o hs,
+                         !.L.signed = SortLex(base \o SubsetOf(names, mask)),
+                         !.cfg.always = StyledSubset(ReqAlways, idx[1] - 1, style),
+                         !.cfg.ifin = StyledSubset(ReqIfIn, idx[2] - 1, style),
+                         !.cfg.prefix = StyledSubset(ReqPrefix, idx[3] - 1, style),
+                         !.cfg.reqimpl = ReqImpls[style]]
+      [] Family = "fold" ->
+            LET b    == Bundle0(CarrierOf(idx[1]))
+                ct   == ContentTypes[idx[4]]
+                body0 == FoldList(idx[3])
+                body == CASE idx[6] = 1 -> body0
+                          [] idx[6] = 2 -> (IF body0 = <<>> THEN <<>> ELSE body0 \o <<AMP>>) \o <<99, 61, 255>>
+                          [] idx[6] = 3 -> (IF body0 = <<>> THEN <<>> ELSE body0 \o <<AMP>>) \o B("c=%zz")
+                L1   == [b.L EXCEPT !.method = B("POST"), !.query = FoldList(idx[2]), !.body = body,
+                                    !.hdrs = @ \o (IF ct = <<>> THEN <<>> ELSE << <<B("Content-Type"), ct>> >>)]
+            IN [b EXCEPT !.L = [L1 EXCEPT !.signed = SignAll(L1)], !.cfg.fold = Bool(idx[5]),
+                         !.post = IF idx[7] = 2 /\ body # <<>>
+                                  THEN << [k |-> "body", v |-> SetAt(body, Len(body), IF body[Len(body)] = 49 THEN 50 ELSE 49)] >>
+                                  ELSE <<>>]
+      [] Family = "dup" -> DupCases[idx[1]]
+      [] Family = "ct" ->
+            LET b0 == CASE idx[1] = 1 -> Bundle0("hdr") [] idx[1] = 2 -> RichB("hdr")
+                        [] idx[1] = 3 -> [Bundle0("hdr") EXCEPT !.L.path = B("/a/b"), !.L.query = B("x=1&y=2")]
+                sec == IF idx[2] = 1 THEN Secret1 ELSE Secret2
+                p   == CtPositions[idx[3]]
+            IN [b0 EXCEPT !.script.secret = sec, !.signSecret = sec,
+                          !.sigmut = [kind |-> "flip", pos |-> IF p < 0 THEN 0 ELSE p]]
+      [] Family = "charsets" ->
+            LET b  == Bundle0("hdr")
+                lab == IF idx[3] = 1 THEN CharsetLabels[idx[1]] ELSE UpperSeq(CharsetLabels[idx[1]])
+                L1 == [b.L EXCEPT !.method = B("POST"), !.body = CharsetBodies[idx[2]],
+                                  !.hdrs = @ \o << <<B("Content-Type"), B("application/x-www-form-urlencoded; charset=") \o lab>> >>]
+            IN [b EXCEPT !.L = [L1 EXCEPT !.signed = SignAll(L1)], !.cfg.fold = TRUE]
+      [] Family = "degenerate" ->
+            [Bundle0("hdr") EXCEPT !.post = Degenerate[idx[1]], !.cfg.fold = Bool(idx[2])]
+      [] Family = "passthru" ->
+            LET b  == Bundle0(CarrierOf(idx[1]))
+                kinds == <<"bytes", "vec", "unit">>
+                L1 == [b.L EXCEPT !.method = Methods[idx[2]], !.version = Versions[idx[3]], !.hdrs = @ \o HdrSets[idx[4]],
+                                  !.body = IF idx[5] = 3 THEN <<>> ELSE Bodies[idx[6] + 1], !.query = Queries[idx[4]]]
+            IN [b EXCEPT !.L = [L1 EXCEPT !.signed = SignAll(L1)], !.cfg.bodykind = kinds[idx[5]],
+                         !.script.principal = 100 * idx[2] + 10 * idx[3] + idx[4]]
 
 Case == CaseOfBundle(BundleOf, <<Family>> \o idx)
+        @@ (IF Family = "ct"
+            THEN [group |-> <<idx[1], idx[2]>>,
+                  who |-> IF idx[3] = 1 THEN "ref" ELSE IF CtPositions[idx[3]] < 0 THEN "control-0" ELSE "p" \o ToString(CtPositions[idx[3]])]
+            ELSE [group |-> 0, who |-> ""])
 
 \* abstract/concrete consistency: the earliest injected defect is the rule the byte-level reading reports
 \* (rule 16 is not a structural rule; 0 = none)
 ExpectedFirst == LET S == DefectSet \ {16} IN IF S = {} THEN 0 ELSE CHOOSE m \in S : \A x \in S : m <= x
-ConsistentFirst == (IsCase /\ Family = "defects") => FirstRuleOf(BundleOf) = ExpectedFirst
+ConsistentFirst == (IsCase /\ Family \in {"defects", "leak_defects"}) => FirstRuleOf(BundleOf) = ExpectedFirst
+
+\* C02 law on the specification itself: an admissible respelling leaves the reading unchanged
+SpellingKeepsCanonicalForm ==
+    (IsCase /\ Family = "spell") =>
+        LET r0 == Q(EnvOfWire(MkX(BundleOf.L)), BundleOf.cfg)
+            r1 == Q(EnvOfWire(WireOf(BundleOf)), BundleOf.cfg)
+        IN r0.err.rule = 0 /\ r1.err.rule = 0 /\ r0.creqPres = r1.creqPres /\ r0.stsPre = r1.stsPre
+           /\ r0.payload = r1.payload /\ r0.akid = r1.akid /\ r0.token = r1.token
 
 Init == idx = <<>>
 Next == \E i \in 1..Dim(Len(idx) + 1) : idx' = Append(idx, i)
